@@ -86,7 +86,7 @@ def one_query(ctx, rng, built, s, witness_base, mode="c11", q=None, expected=Non
     elif kind < 0.18 and witness_base.get("sortable"):
         q = gen_extra_query(rng)
     else:
-        q = model.gen_query(rng, depth=rng.choice([1, 2, 2, 3]), scoring=True)
+        q = model.gen_query(rng, depth=rng.choice([1, 2, 2, 3]), scoring=True, boolean=(mode == "c11"))
     scored = True if mode == "c12" else rng.random() < 0.6
     needs_current = rng.random() < 0.5
     level = rng.choice(["top", "segment"])
@@ -251,7 +251,7 @@ def run(ctx):
         rng = ctx.rng(idx)
         ctx.reseed_global(idx)
         nested = rng.random() < 0.15
-        h = model.gen_group_history(rng) if nested else model.gen_history(rng, ndocs=(1, 45), boosts=True)
+        h = model.gen_group_history(rng) if nested else model.gen_history(rng, ndocs=(1, 45), boosts=True, boolean=True)
         sortable = rng.random() < 0.3
         wb = {"history": {"commits": [len(c) for c in h["commits"]], "deletes": len(h["deletes"]),
                           "blocklimit": h["blocklimit"], "storage": h["storage"]}, "case_idx": idx, "sortable": sortable,
